@@ -74,3 +74,18 @@ Print Assumptions C32_unchecked_old_refuted.
 Theorem C32_model_satisfies_monitor : forall i, monitor i (model i) = true.
 Proof. exact model_monitor. Qed.
 Print Assumptions C32_model_satisfies_monitor.
+
+(* The boolean monitor evaluated on implementation outputs is exactly: what from_bytes /
+   from_relay_payload accept is returned unchanged, has a point key that public_key()
+   reports, a verifying signature over signable(timestamp, payload) and a parsing payload;
+   nothing any constructor returns panics when inspected; no constructor panics. *)
+Theorem C32_monitor_is_property : forall i o,
+  len (in_key2 i) = 32 ->
+  (monitor i o = true <->
+   accepted_prop i (key_of (all_bytes i)) (all_bytes i) (r_from_bytes o) /\
+   inspect_prop (r_unchecked o) /\ inspect_prop (r_parts o) /\
+   (forall r, r_relay o = Some r -> accepted_prop i (key_of (all_bytes i)) (all_bytes i) r) /\
+   (forall r, r_relay2 o = Some r ->
+      accepted_prop i (in_key2 i) (in_key2 i ++ skipn 32 (all_bytes i)) r)).
+Proof. exact monitor_spec. Qed.
+Print Assumptions C32_monitor_is_property.
